@@ -31,12 +31,14 @@ GRAMMAR = r"""
 Model: items+=Item;
 Item: Box | Val;
 Box: 'box' name=ID '{' items*=Item '}';
-Val: 'val' name=ID '=' v=Num;
+Val: 'val' name=ID '=' v=Ver;
+Ver: Num ('.' Num)?;
 Num: /\d+/;
 """
+# Num matches also occur as later parts of the multi-part match rule Ver
 TEXTS = [
-    "box a {\n  val x = 1\n  box b {\n\n   val y = 22 }\n}\nval z = 333",
-    "\n\n val q = 7 box c { val r = 8\n\tval s = 9 }",
+    "box a {\n  val x = 1.5\n  box b {\n\n   val y = 22 .\n 4 }\n}\nval z = 333",
+    "\n\n val q = 7 box c { val r = 8\n\t.\n\t 66 val s = 9 }",
 ]
 
 
